@@ -77,7 +77,7 @@ func (c RouterCfg) Options() []func(*rux.Router) {
 type refOutcome struct {
 	Stage   string // direct | head-get | fallback | not-allowed | not-found
 	Route   int    // index into the table, -1 if none
-	Alt     int    // the same stage's winner under the KF2 ranking (C06 is not about ranking, C01 is)
+	Alt     int    // (was: the same stage's winner under the former KF2 ranking; since fix D16 it equals Route)
 	Allowed []string
 	Stages  int // how many stages were applicable (for the non-trivial rule)
 }
@@ -95,11 +95,11 @@ func refResolve(tb *Table, cfg RouterCfg, method, path string) (refOutcome, bool
 	}
 	out := refOutcome{Route: -1, Alt: -1}
 	direct, _ := tb.Resolve(method, p, false)
-	directAlt, _ := tb.Resolve(method, p, true)
+	directAlt, _ := tb.Resolve(method, p, false)
 	headGet, headGetAlt := -1, -1
 	if method == "HEAD" {
 		headGet, _ = tb.Resolve("GET", p, false)
-		headGetAlt, _ = tb.Resolve("GET", p, true)
+		headGetAlt, _ = tb.Resolve("GET", p, false)
 	}
 	fb := -1
 	if cfg.Fallback {
@@ -198,7 +198,7 @@ func BuildCfgRouter(tb *Table, cfg RouterCfg) *rux.Router {
 }
 
 func runC06(e *Env) {
-	e.Rule = "route tables (1..8 routes, skewed method subsets, optional '/*' route for all or some methods) x generated option sets {HandleMethodNotAllowed, HandleFallbackRoute, StrictLastSlash, caching, InterceptAll(p) in 4 spellings} x custom/default NotFound/NotAllowed handlers; probes = 9 methods x instantiations/mutations/trailing-slash variants/'/*'; observed through Match (route, allowed set) and ServeHTTP (status, Allow header, body, CTXAllowedMethods). Oracle: the documented resolution order on top of the AST reference matcher. Non-trivial: resolved by a fallback stage (HEAD->GET, '/*', 405) or >= 2 stages applicable; distinct by (table, options, method, path)."
+	e.Rule = "route tables (1..8 routes, skewed method subsets, optional '/*' route for all or some methods) x generated option sets {HandleMethodNotAllowed, HandleFallbackRoute, StrictLastSlash, caching, InterceptAll(p) in 4 spellings} x custom/default NotFound/NotAllowed handlers; probes = 9 methods x instantiations/mutations/trailing-slash variants/'/*'; observed through Match (route, allowed set) and ServeHTTP (status, Allow header, body, CTXAllowedMethods). Oracle: the documented resolution order on top of the AST reference matcher. Non-trivial: resolved by a fallback stage (HEAD->GET, '/*', 405) or >= 2 stages applicable; distinct by (table, options, method, path). Probes also use two request methods outside the nine (PURGE, LINK)."
 	e.Assumptions = []string{
 		"the allowed set of the statement is the set of other methods under which the path matches directly (no HEAD->GET, no '/*')",
 		"only the literal route '/*' is a fallback route",
